@@ -5,12 +5,14 @@ package vfk
 
 import (
 	"crypto/sha256"
+	"encoding/base64"
 	"fmt"
 	"time"
 
 	"github.com/privacybydesign/gabi/big"
 	"github.com/privacybydesign/gabi/gabikeys"
 	"github.com/privacybydesign/gabi/internal/vfh"
+	"github.com/privacybydesign/gabi/signed"
 )
 
 type KeyPair struct {
@@ -93,10 +95,26 @@ func Build(p, q *big.Int, params *gabikeys.SystemParameters, nbases int, withRev
 	}
 	pk.Issuer = seed
 	if withRevocation {
-		if err := gabikeys.GenerateRevocationKeypair(sk, pk); err != nil {
+		// deterministic revocation material: an embedded P-256 key chosen by the seed, G and H
+		// derived like the other bases (GenerateRevocationKeypair would draw all of it randomly,
+		// which would make stored documents meaningless in another process)
+		h := sha256.Sum256([]byte(seed + "|ecdsa"))
+		der, err := base64.StdEncoding.DecodeString(vfh.ECDSAKeys[int(h[0])%len(vfh.ECDSAKeys)])
+		if err != nil {
 			panic(err)
 		}
-		// deterministic G, H (GenerateRevocationKeypair draws them from the process-wide generator)
+		key, err := signed.UnmarshalPrivateKey(der)
+		if err != nil {
+			panic(err)
+		}
+		pubDer, err := signed.MarshalPublicKey(&key.PublicKey)
+		if err != nil {
+			panic(err)
+		}
+		sk.ECDSAString = base64.StdEncoding.EncodeToString(der)
+		sk.ECDSA = key
+		pk.ECDSAString = base64.StdEncoding.EncodeToString(pubDer)
+		pk.ECDSA = &key.PublicKey
 		pk.G = pow("G")
 		pk.H = pow("H")
 	}
